@@ -79,6 +79,11 @@ func (s *PS) Gx() int { return s.gxBacking }
 
 func CvProbe(i int) int { return i }
 
+// declared here, in a file that is not the setup file, and embedded by interface B there
+type EmbB interface {
+	B2(*PS) *PD
+}
+
 func PostProbe(dst *PD, src *PS) {}
 
 type PD struct {
@@ -154,7 +159,12 @@ func c09Setup(o *optCase, methods []string, bFirst bool) string {
 		b.WriteString("type B interface {\n")
 		b.WriteString("\t// :skip SkB1\n\t// :skip cisk\n")
 		b.WriteString(c09Lines("\t", o.Notes["B1"]))
-		b.WriteString("\t// :literal LtB 5\n\tB1(*PS) *PD\n}\n\n")
+		b.WriteString("\t// :literal LtB 5\n\tB1(*PS) *PD\n")
+		if has["B2"] {
+			// B2 is promoted from an interface of a sibling file: no notations of its own, B's settings apply
+			b.WriteString("\tEmbB\n")
+		}
+		b.WriteString("}\n\n")
 	}
 	head := "//go:build convergen\n\npackage p\n\n"
 	if bFirst {
@@ -236,7 +246,7 @@ func c09Observe(fn *project.Func, method string, want map[string]string) (diffs 
 	// the case-folding skip pattern follows the effective case rule, although its line stands above the toggles
 	if o, _ := kind("DST.CiSk"); true {
 		wantK := "skip"
-		if want["case"] == "on" {
+		if want["case"] == "on" || method == "B2" {
 			wantK = map[string]string{"on": "assign", "off": "nomatch"}[want["match"]]
 		}
 		if o.K != wantK {
@@ -336,7 +346,7 @@ func C09(c *core.Ctx) {
 		file    *project.File
 		err     string
 	}
-	variants := [][]string{{"A1", "A2", "B1"}, {"A1"}, {"A2"}, {"B1"}}
+	variants := [][]string{{"A1", "A2", "B1", "B2"}, {"A1"}, {"A2"}, {"B1"}}
 	runs := make([][]*run, len(cases))
 	files := map[string]string{}
 	nBFirst := 0
@@ -436,10 +446,20 @@ func C09(c *core.Ctx) {
 				}
 			}
 		}
+		// the promoted method: interface B's settings, nothing else
+		if multi.err == "" {
+			if fn := multi.file.Func("B2"); fn == nil {
+				problems = append(problems, "B2 (promoted from the embedded interface of a sibling file): function missing")
+			} else {
+				for _, d := range c09Observe(fn, "B2", o.Eff["B2"]) {
+					problems = append(problems, fmt.Sprintf("B2 (promoted from the embedded interface of a sibling file): %s", d))
+				}
+			}
+		}
 		mu.Lock()
-		functions += 6
+		functions += 7
 		nondefault := false
-		for _, m := range []string{"A1", "A2", "B1"} {
+		for _, m := range []string{"A1", "A2", "B1", "B2"} {
 			for s, v := range o.Eff[m] {
 				if v != map[string]string{"style": "off", "match": "on", "case": "on", "getter": "off", "stringer": "off", "typecast": "off"}[s] {
 					nondefault = true
@@ -478,5 +498,5 @@ func C09(c *core.Ctx) {
 		j := len(cases) / 2
 		c.Sample(map[string]any{"cfg": cases[j].Cfg, "effective": cases[j].Eff, "setup": c09Setup(cases[j], variants[0], false)})
 	}
-	c.Set("rule", "for each of the six settings every placement of {unset,on,off} at (interface A, method A1, method A2, interface B, method B1) x 3 backgrounds for the other settings x duplicated-notation variant (8748 cases, TLC Options.tla); each case is one two-interface file plus three single-method files; effective settings are read off a probe struct pair in every generated function and compared with effOpts, each method's own :skip must be honoured and nobody else's, and the function text must equal the single-method generation. Non-trivial: at least one non-default effective value")
+	c.Set("rule", "for each of the six settings every placement of {unset,on,off} at (interface A, method A1, method A2, interface B, method B1) x 3 backgrounds for the other settings x duplicated-notation variant (8748 cases, TLC Options.tla); each case is one two-interface file (interface B also embeds an interface of a sibling file, whose method B2 takes B's settings) plus three single-method files; effective settings are read off a probe struct pair in every generated function and compared with effOpts, each method's own :skip must be honoured and nobody else's, and the function text must equal the single-method generation. Non-trivial: at least one non-default effective value")
 }
